@@ -18,7 +18,7 @@ MANIFEST = {
             'for <= 2 arguments (thorough <= 3); above that a benign default call with every single position, and every pair of positions '
             '(thorough: every triple), replaced by pool values - pairs at >= 4 arguments (thorough: triples) draw from a 12-value '
             'sub-pool of kind representatives.  Thorough repeats the quick bound with every argument passed through cell references. '
-            'Exhaustive within these bounds, nothing sampled. Fifteen variadic functions are also called with 31, 32, 33 and 40 arguments (the library has a separate path from 32 on) with an error at the first, second, middle and last positions, typed and referenced. The paired-series functions (CORREL, SLOPE, FORECAST, FORECAST.LINEAR) get an error at every position of either series opposite every kind of element (number, blank, text, logical, empty text, error, numeric text) in the other, as columns and rows.',
+            'Exhaustive within these bounds, nothing sampled. Fifteen variadic functions are also called with 31, 32, 33 and 40 arguments (the library has a separate path from 32 on) with an error at the first, second, middle and last positions, typed and referenced. The paired-series functions (CORREL, SLOPE, FORECAST, FORECAST.LINEAR) get an error at every position of either series opposite every kind of element (number, blank, text, logical, empty text, error, numeric text) in the other, as columns and rows.' ' Later additions: paired series, numeric text 1E+999 and CJK text in the pool, MDETERM / MINVERSE / TRANSPOSE / GCD / LCM at huge magnitudes, reached error keys of SWITCH and reached error conditions of IFS in the oracle.',
     'note': 'Trusted: ref/arity.py (Excel argument counts, default calls, table of positions whose error is certainly consumed). '
             'Only escapes, ill-formed values and lost errors are judged, not the values themselves; values outside the pool, more than '
             'k deviating positions at high arity and more than min+3 arguments of variadic functions are not decided.',
